@@ -277,3 +277,9 @@ def r7(c):
     from rules import c05
     c05.r4(c)
     c05.r7(c)
+
+
+@rule('C06', 'R06.8', 'what is emitted is the frame as formatted, at every decode level: the logging of a frame does not touch it (C20/R20.1)', needs=HAS_SERIAL)
+def r8(c):
+    from rules import c20
+    c20.r1(c)
